@@ -154,4 +154,24 @@ CHECKS = {
              "chunks stay word multiples inside the loop (only the %4 entry "
              "guards). Assumes advertised buffer size >= 1 (>= 4 for links) "
              "and non-negative lengths."),
+    "C05": dict(
+        technique="order-type abstract evaluation of slices_overlap (75 weak "
+                  "orderings), Fourier-Motzkin proof of align, dominance / "
+                  "must-pass-through analysis of the allocator's retry loop",
+        text="slices_overlap equals half-open intersection on every ordering "
+             "of its endpoints and align returns the least multiple >= value "
+             "(R1). In allocate, for all inputs: the stored range is the "
+             "last proposal = slice(s, s+requirement) with s = "
+             "align(pointer, alignment) of the same resource; the retry loop "
+             "exits only with the overlap flag false, the flag is raised on "
+             "every path where slices_overlap(proposal, r) holds for both "
+             "the global list of the resource and the local list of this "
+             "chip+resource and is never overwritten; every path from the "
+             "flag reset to the loop test passes the bound test against "
+             "machine[xy][resource] (R2); accepted ranges bump the pointer, "
+             "pointers are re-created per chip (R3); only "
+             "InsufficientResourceError is raised (R4).",
+        note="Not decided: the 'always succeeds on a feasible placement' "
+             "clause; termination of the retry loop with interleaved "
+             "reservations. Assumes alignments >= 1."),
 }
